@@ -166,6 +166,40 @@ def last_wins(res, prog):
             res.sample({'rule': 'C02.4', 'insert_key': key})
     if not ins:
         res.violation('C02.4', 'C02.4|missing', f, f.line, 'no `streams.insert(dir.stream_type, ..)` found (or_insert / entry would keep the first duplicate)')
+    # C02.4b nothing is parsed while the directory is being walked: the directory loop only records entries, and the
+    # cached system info (handed to every other stream reader) is looked up in the finished map, so it is the entry
+    # get_raw_stream serves (the last duplicate), not the first one seen
+    res.rule('C02.4b', 0, floor=2, note='the directory loop records entries only; the cached system info is read through the finished streams map')
+    ALLOWED_IN_LOOP = re.compile(r'(range::next$|Deref::deref$|gread_with$|Result::or$|Try>::branch$|FromResidual|Clone>::clone$|BTreeMap::insert$|FromPrimitive::from_u32$|PartialEq>::(eq|ne)$|IntoIterator::into_iter$|fmt::|tracing|log::)')
+    for h, body in f.loops().items():
+        if not any(f.callee(f.blocks[b]['t']) == 'std::collections::BTreeMap::insert' for b in body if f.blocks[b]['t']['k'] == 'call'):
+            continue
+        res.rule('C02.4b', 1)
+        for b in sorted(body):
+            t = f.blocks[b]['t']
+            if t['k'] != 'call' or is_log_term(t):
+                continue
+            n = f.callee(t) or ''
+            # only workspace functions can locate or parse stream bytes; std / scroll helpers on the entry itself are fine
+            if re.match(r'^<?(minidump|minidump_common)::', n.lstrip('<')) and not ALLOWED_IN_LOOP.search(n) or re.search(r'(MinidumpStream|TryFromCtx|Pread).*::(read|try_from_ctx|pread_with|gread)$', n) and 'MINIDUMP_DIRECTORY' not in str(t.get('targs')) and not n.endswith('gread_with'):
+                res.violation('C02.4b', 'C02.4b|loop-call|%s' % n, f, t.get('line'), 'the stream directory loop calls %s: a stream parsed while the directory is walked comes from the entry seen at that moment, not from the one finally stored' % n)
+            for a in t.get('args', []):
+                tr = f.expand(f.operand_tree(a))
+                if tr[0] == 'closure':
+                    res.violation('C02.4b', 'C02.4b|loop-closure|%s' % n, f, t.get('line'), 'the stream directory loop hands a closure to %s' % n)
+    md_adt = c.adts.get('minidump::minidump::Minidump')
+    aggs = [(b, s_) for b in sorted(f.reach) for s_ in f.blocks[b]['s'] if s_['k'] == 'assign' and s_['rv']['k'] == 'agg' and s_['rv'].get('adt', '').endswith('minidump::Minidump')]
+    if md_adt is None or len(aggs) != 1:
+        res.error('C02.4b', 'Minidump aggregate not found in Minidump::read')
+    else:
+        names = [x[0] for x in md_adt['variants'][0]['fields']]
+        vals = dict(zip(names, aggs[0][1]['rv']['xs']))
+        res.rule('C02.4b', 1)
+        si = show(f.expand(f.operand_tree(vals['system_info'])))
+        if not si.startswith('(std::option::Option::and_then (std::collections::BTreeMap::get streams (item minidump::minidump::MinidumpStream::STREAM_TYPE))'):
+            res.violation('C02.4b', 'C02.4b|system_info', f, aggs[0][1].get('line'), 'the cached system info is %s, not streams.get(&SystemInfo::STREAM_TYPE).and_then(..) over the finished directory map' % si[:200])
+        if show(f.expand(f.operand_tree(vals['streams']))) != 'streams':
+            res.violation('C02.4b', 'C02.4b|streams', f, aggs[0][1].get('line'), 'Minidump.streams is not the map filled by the directory loop')
     # get_stream reads the stored entry
     for b, t in f.calls():
         if re.search(r'BTreeMap::entry$', f.callee(t)) and show(f.operand_tree(t['args'][0])) == 'streams':
